@@ -53,10 +53,22 @@ func (h *hooked) Check(ent Entry, ce *CheckedEntry) *CheckedEntry {
 	// Let the wrapped Core decide whether to log this message or not. This
 	// also gives the downstream a chance to register itself directly with the
 	// CheckedEntry.
-	if downstream := h.Core.Check(ent, ce); downstream != nil {
+	//
+	// The CheckedEntry may already hold cores added by siblings (e.g. earlier
+	// branches of a tee), so a non-nil result alone doesn't mean that the
+	// wrapped Core accepted the entry: it did only if it added itself.
+	before := 0
+	if ce != nil {
+		before = len(ce.cores)
+	}
+	downstream := h.Core.Check(ent, ce)
+	if downstream == nil {
+		return ce
+	}
+	if len(downstream.cores) > before {
 		return downstream.AddCore(ent, h)
 	}
-	return ce
+	return downstream
 }
 
 func (h *hooked) With(fields []Field) Core {
